@@ -887,6 +887,10 @@ def _get_attribute(obj: Any, attr: str) -> Any:
     if is_private_attribute(attr):
         raise AttributeError("attempt to access private attribute '%s'" % attr)
     else:
+        prop = getattr(type(obj), attr, None)
+        if inspect.isdatadescriptor(prop) and not getattr(getattr(prop, "fget", None), "_pyroExposed", False):
+            # don't evaluate a property (run its getter) for a method call unless that property is exposed itself
+            raise AttributeError("attempt to access unexposed attribute '%s'" % attr)
         obj = getattr(obj, attr)
     if getattr(obj, "_pyroExposed", False):
         return obj
